@@ -161,6 +161,9 @@ func checkTOTPEntry(c *Check, w *World, tb *TB, pfx string, entry *ssa.Function,
 }
 
 func runC02(c *Check, w *World) {
+	if w.Cfg.Name == CfgNative.Name {
+		ruleJSExportsDirect(c, "R02.JS", "generateTOTP")
+	}
 	tb := NewTB(w)
 	ef := NewEffects(tb)
 	ruleCounterFunction(c, w, tb, ef, "R02.1")
